@@ -30,6 +30,7 @@ ASSUMPTIONS = [
   "back-face culling is part of 'rendered': with culling on, a geom whose nearest intersection is an exit face (camera inside it) is not rendered; cameras outside every geom form the deciding tier, inside cameras are judged against the per-geom table with exit hits removed",
   "a pixel is judged only if the reference hit (hit/miss, geom up to 1e-4 ties, depth within 1%) is unchanged under 2 ulp-scale and 3 2e-5-scale perturbations of the ray (silhouette / grazing pixels are inconclusive)",
   "depth bound 1e-4*max(1,dist,|origin|) + 50*measured reference noise, violation above 30x; a signature is reported only if >=2 pixels of the case show it (single isolated pixels are tallied)",
+  "hits farther than 100 length units (50x the scene extent) are outside the judged domain",
   "intrinsic cameras whose sensor aspect differs from the image aspect are a separate diagnostic tier (MuJoCo stretches, MJWarp crops)",
 ]
 BUDGET = {"quick": 150, "thorough": 1500}
@@ -37,6 +38,7 @@ BUDGET = {"quick": 150, "thorough": 1500}
 TIE = 1e-4
 A_DIST = 1e-4
 VIOL = 30.0
+MAXDIST = 100.0
 RES = [(8, 8), (16, 12), (24, 24), (32, 24), (33, 17), (48, 32), (64, 48), (64, 64)]
 GROUPSETS = [[0, 1, 2], [0, 1, 2], [0], [0, 1, 2, 3, 4, 5], [0, 3, 5]]
 
@@ -212,7 +214,6 @@ def run_case(case):
       fr = gl_frustum(mjm_w, mjd, c)
       cpos = np.array(mjd.cam_xpos[c])
       cmat = np.array(mjd.cam_xmat[c])
-      org, dirs, cosv = pixel_rays(fr, W, H, cpos, cmat)
       npx = W * H
       single = not fr["ortho"]
       mism_aspect = False
@@ -231,7 +232,8 @@ def run_case(case):
           nr_ = fr["near"]
           left, right = -nr_ / fx * (sw / 2 - cx), nr_ / fx * (sw / 2 + cx)
           fr = dict(fr, top=nr_ / fy * (sh / 2 - cy), bottom=-nr_ / fy * (sh / 2 + cy), center=0.5 * (left + right), width=0.5 * (right - left))
-      tier = ("ortho:" if fr["ortho"] else "") + ("aspect-mismatch:" if mism_aspect else "")
+      org, dirs, cosv = pixel_rays(fr, W, H, cpos, cmat)
+      tier = ("ortho:" if fr["ortho"] else "") + ("aspect-mismatch(crop-rule):" if mism_aspect else "")
       d0, g0, n0 = cast(mjm_w, mjd, org, dirs, gmask, single)
       # cameras inside a rendered closed geom: the nearest intersection of that geom is an exit face
       inside = []
@@ -298,6 +300,13 @@ def run_case(case):
           cls = np.array(["miss"] * npx, dtype=object)
           hm = eg >= 0
           cls[hm] = [rs.TYPE_NAMES[int(gtype[g])] for g in eg[hm]]
+          for g in np.unique(eg[hm]):
+            if gtype[g] == rs.GT.mjGEOM_HFIELD:
+              sel = eg == g
+              nt = hfield_nontop(mjm_w, mjd, g, org[sel], dirs[sel], ed[sel], N[sel, g])
+              idx = np.nonzero(sel)[0]
+              cls[idx[nt]] = "hfield-side-base"
+              cls[idx[~nt]] = "hfield-top"
           # stability of the culled expectation is approximated by the stability of the unculled one
       elif culling:
         stable &= ~backfacing  # cannot happen for closed solids seen from outside; if it does, do not judge
@@ -320,6 +329,9 @@ def run_case(case):
           flag("ortho:all-pixels-cast-the-same-ray", "second witness (same camera)", world=w, cam=int(c))
           rec.count("ortho_pixels_not_judged_constant_image", npx)
           continue
+      far = exp_d > MAXDIST  # e.g. horizon pixels on infinite planes (the scene BVH clips those at +-1000)
+      rec.count("pixels_out_of_domain_hit_beyond_100", int(np.sum(far & stable)))
+      stable &= ~far
       ok_px = np.nonzero(stable)[0]
       rec.count("pixels_inconclusive_silhouette_or_grazing", int(npx - len(ok_px)))
       scale = np.maximum(1.0, np.maximum(np.abs(exp_d), np.linalg.norm(org, axis=1)))
@@ -343,7 +355,7 @@ def run_case(case):
         want_depth = np.where(exp_g >= 0, exp_d * cosv, 0.0)
         derr = np.abs(got_depth - want_depth)
         ratio = derr / bound
-        okr = ratio[ok_px][~bad[ok_px]] if got_seg is not None else ratio[ok_px]
+        okr = ratio[ok_px][~bad[ok_px] & ~hfdev[ok_px]]
         if len(okr):
           rec.worst((tier or "") + "depth", float(np.max(np.where(okr <= VIOL, okr, 0))))
         bad |= ratio > 1
